@@ -490,5 +490,6 @@ func runC13(r *Run) {
 			}
 		}
 	}
-	r.Finish("multisets of 0..50 prefixes (IPv4 /0../32, IPv6 /0../128, a quarter single addresses, host bits set or not; a quarter of the IPv4 ones written in IPv4-mapped form; half derived from earlier ones: duplicate, same base other length, nested, adjacent, IPv4-mapped twin), load order random / ascending / descending; every set is loaded via Append, the text loader, ip_set ips and the ip_set plugin (ips + a list file), each compared with the bit-level oracle, one of them (random) also with the model; rule lines are written with or without /len for single addresses and with 16-byte addresses spelled canonical / expanded / upper case / ::ffff:hex:hex / 0:0:0:0:0:ffff:a.b.c.d; addresses = first, last, just below, just above and the written base of every prefix in IPv6 and (when mapped) IPv4 notation + random; non-trivial = at least 2 prefixes and some address covered")
+	r.runC13Sets()
+	r.Finish("multisets of 0..50 prefixes (IPv4 /0../32, IPv6 /0../128, a quarter single addresses, host bits set or not; a quarter of the IPv4 ones written in IPv4-mapped form; half derived from earlier ones: duplicate, same base other length, nested, adjacent, IPv4-mapped twin), load order random / ascending / descending; every set is loaded via Append, the text loader, ip_set ips and the ip_set plugin (ips + a list file), each compared with the bit-level oracle, one of them (random) also with the model; rule lines are written with or without /len for single addresses and with 16-byte addresses spelled canonical / expanded / upper case / ::ffff:hex:hex / 0:0:0:0:0:ffff:a.b.c.d; addresses = first, last, just below, just above and the written base of every prefix in IPv6 and (when mapped) IPv4 notation + random; non-trivial = at least 2 prefixes and some address covered; configurations of 2..26 ip_set plugins built in config order through coremain (leaf sets with ips/files, sets of 1..7 earlier sets with or without own rules, families of 2..3 sets that reference the same earlier set plus different further sets, in listed or shuffled order): when all are built every plugin is asked the first / last / neighbour addresses of every rule and compared with the bit-level oracle over its own rules and (transitively) those of the sets it references, and with the model (buildSets); a failing configuration is shrunk by sets, references and rules")
 }
